@@ -1,6 +1,6 @@
 #!/bin/bash
 # usage: mutrun.sh <patch.diff> <PID> [more PIDs...]  -- run checks against a scratch copy of /repo with the patch applied
-P="$1"; shift
+P="$(readlink -f "$1")"; shift
 S=$(mktemp -d /tmp/pqmut.XXXXXX)
 trap 'rm -rf "$S"' EXIT
 cp -r /repo/src /repo/Cargo.toml /repo/Cargo.lock /repo/test-nostd "$S"/ 2>/dev/null
